@@ -36,7 +36,7 @@ func runC10(c *rules.Ctx) {
 	c.CallArg(GE, "sdkmath.LegacyDec.Sub", 0, "endRecord.GeometricTwapAccumulator", "geometric: end − start of the geometric accumulator")
 	c.CallArg(GE, "sdkmath.LegacyDec.Sub", 1, "startRecord.GeometricTwapAccumulator", "geometric: end − start of the geometric accumulator")
 	c.CallArg(GE, "osmomath.Exp2", 0, "osmomath.BigDecFromDec(sdkmath.LegacyDec.Abs(twaptypes.AccumDiffDivDuration(_, sub(twaptypes.CanonicalTimeMs(endRecord.Time), twaptypes.CanonicalTimeMs(startRecord.Time)))))", "2^|mean of logs|")
-	c.OnlyWhen(GE, "osmomath.BigDec.Quo", "sdkmath.LegacyDec.IsNegative(_) & eq(quoteAsset, startRecord.Asset0Denom) | not(sdkmath.LegacyDec.IsNegative(_)) & ne(quoteAsset, startRecord.Asset0Denom)", "the result is inverted only in the two documented cases (negative exponent & quote0, or non-negative & not quote0)")
+	c.OnlyWhen(GE, "osmomath.BigDec.Quo", "sdkmath.LegacyDec.IsNegative(_) & eq(quoteAsset, startRecord.Asset0Denom) | not(sdkmath.LegacyDec.IsNegative(_)) & ne(quoteAsset, startRecord.Asset0Denom) | eq(eq(quoteAsset, startRecord.Asset0Denom), sdkmath.LegacyDec.IsNegative(_))", "the result is inverted only in the two documented cases (negative exponent & quote0, or non-negative & not quote0)")
 	c.CallArg(GE, "osmomath.BigDec.Quo", 0, "osmomath.OneBigDec()", "inversion = 1 / result")
 	// error flagging
 	const CT = T + "computeTwap"
